@@ -70,6 +70,7 @@ type Field struct {
 	Type       Type   `json:"type"`
 	Index      uint8  `json:"index,omitempty"` // messages only
 	Deprecated bool   `json:"deprecated,omitempty"`
+	Comment    string `json:"comment,omitempty"`
 }
 
 type EnumOpt struct {
@@ -166,7 +167,21 @@ type Layout struct {
 	CRLF      bool
 	OneLine   bool // records on one line where the grammar allows
 	Comments  bool
+	Block     bool // doc comments as /* block */ comments instead of // lines
 	BlankRuns int
+}
+
+func writeComment(b *strings.Builder, c string, l Layout, ind string) {
+	if c == "" || !l.Comments {
+		return
+	}
+	if l.Block {
+		fmt.Fprintf(b, "%s/*%s*/\n", ind, c)
+		return
+	}
+	for _, ln := range strings.Split(c, "\n") {
+		fmt.Fprintf(b, "%s//%s\n", ind, ln)
+	}
 }
 
 func (s *Schema) Print() string { return s.PrintLayout(Layout{Indent: "    "}) }
@@ -187,11 +202,7 @@ func (s *Schema) PrintLayout(l Layout) string {
 }
 
 func printDef(b *strings.Builder, d *Def, l Layout, ind string) {
-	if d.Comment != "" && l.Comments {
-		for _, ln := range strings.Split(d.Comment, "\n") {
-			fmt.Fprintf(b, "%s//%s\n", ind, ln)
-		}
-	}
+	writeComment(b, d.Comment, l, ind)
 	if d.OpCode != 0 {
 		fmt.Fprintf(b, "%s[opcode(0x%x)]\n", ind, d.OpCode)
 	}
@@ -234,6 +245,9 @@ func printDefBody(b *strings.Builder, d *Def, l Layout, ind string) {
 		}
 		fmt.Fprintf(b, "struct %s {%s", d.Name, nl)
 		for _, f := range d.Fields {
+			if nl == "\n" {
+				writeComment(b, f.Comment, l, in2)
+			}
 			if f.Deprecated {
 				fmt.Fprintf(b, "%s[deprecated(\"old\")]%s", in2, nl)
 			}
@@ -247,6 +261,9 @@ func printDefBody(b *strings.Builder, d *Def, l Layout, ind string) {
 	case KMessage:
 		fmt.Fprintf(b, "message %s {%s", d.Name, nl)
 		for _, f := range d.Fields {
+			if nl == "\n" {
+				writeComment(b, f.Comment, l, in2)
+			}
 			if f.Deprecated {
 				fmt.Fprintf(b, "%s[deprecated(\"old\")]%s", in2, nl)
 			}
